@@ -124,9 +124,11 @@ def parse_obs(line):
     return o
 
 
-def drift_failures(o):
-    """where the real LP is not the coefficient-wise floating-point image of the rational LP"""
+def drift_failures(o, modulo_inf=False):
+    """where the real LP is not the coefficient-wise floating-point image of the rational LP; with modulo_inf two bounds / sides that are
+    both beyond the current INFTY on the same side count as equal (both denote an infinite bound: this is how areLPsInSync reads them)"""
     Q, R = o.Q, o.R
+    inf = Fraction(o.inf) if modulo_inf else None
     if Q is None:
         return ["no-rational-lp"]
     bad = []
@@ -139,6 +141,8 @@ def drift_failures(o):
     for k in ("mobj", "obj", "lo", "up", "lhs", "rhs"):
         a, b = getattr(R, k), getattr(Q, k)
         for i, (d, q) in enumerate(zip(a, b)):
+            if inf is not None and k in ("lo", "up", "lhs", "rhs") and d == d and ((d >= inf and q >= inf) or (d <= -inf and q <= -inf)):
+                continue
             if not adjacent(d, q):
                 bad.append("%s[%d]" % (k, i))
                 break
@@ -565,9 +569,9 @@ def evaluate_case(c, hl, ml, verdict, counts=None):
                 verdict.add("areLPsInSync:differs-from-its-code:" + name,
                             "areLPsInSync(true,true) returns %s after %s, a re-evaluation of its code on the observed LPs gives %s" % (ho.extras["sync"], name, want),
                             {"ops": ops[1:j + 1], "implementation": hl[j][:3000]}, True)
-            if ho.mode == 1 and any(k == "drift" for k, _ in fails) and ho.extras["sync"] == "1":
+            if ho.mode == 1 and any(k == "drift" for k, _ in fails) and ho.extras["sync"] == "1" and drift_failures(ho, modulo_inf=True):
                 verdict.add("areLPsInSync:blind",
-                            "areLPsInSync(true,true) returns true after %s although the LPs differ (%s)" % (name, fails[0][1][:3]),
+                            "areLPsInSync(true,true) returns true after %s although the LPs differ (%s)" % (name, drift_failures(ho, modulo_inf=True)[:3]),
                             {"ops": ops[1:j + 1], "implementation": hl[j][:3000]})
         if fails and tainted is None:
             kind, what = fails[0]
@@ -1131,6 +1135,7 @@ def main():
         probes(ck, exe)
 
     results = evaluate(exe, model, cases, "main", counts=ck.count)
+    shrunk_sigs = set()        # a signature is shrunk once, from the first history that shows it (later ones must not overwrite its replay)
     for k, v in enumerate(results):
         c = cases[k] if k < len(cases) else {"head": "", "ops": []}
         for op in c["ops"]:
@@ -1142,7 +1147,8 @@ def main():
             d["head"] = c["head"]
             # is this signature new (not a known finding, not already recorded)?  then shrink the history
             fresh = ck.violation(sig, what, d, no_input=no_input)
-            if fresh and "ops" in d and len(d["ops"]) > 3 and not ck.args.replay and sig not in [s for s, _, _, _ in ck.violations[:-1]]:
+            if fresh and "ops" in d and len(d["ops"]) > 3 and not ck.args.replay and sig not in shrunk_sigs:
+                shrunk_sigs.add(sig)
                 small = shrink(exe, model, {"head": c["head"], "ops": d["ops"]}, sig)
                 for i, (s, w, r_, n_) in enumerate(ck.violations):
                     if s == sig:
